@@ -82,12 +82,38 @@ class FillModel:
             for t in st.targets:
                 if attr_chain(t) == (var, "location"):
                     v = st.value
-                    if self._is_loc_call(v):
+                    if self._is_loc_call(v) or self._is_inlined_location(v):
                         return True
                     # a local that received current_location() after this token was fetched
                     if isinstance(v, ast.Name) and v.id in fresh:
                         return True
         return False
+
+    def _is_inlined_location(self, v: ast.AST) -> bool:
+        """Location(<lexer>.filename, <lexer>.lex.lineno - <lexer>.line_offset): PlyLexer.current_location() written out
+        (the lexer may be reached through locals that alias self._lex and its .lex)"""
+        if not (isinstance(v, ast.Call) and norm(v.func) == "Location"):
+            return False
+        byname = {k.arg: k.value for k in v.keywords}
+        a0 = v.args[0] if len(v.args) > 0 else byname.get("filename")
+        a1 = v.args[1] if len(v.args) > 1 else byname.get("lineno")
+        if a0 is None or a1 is None:
+            return False
+        alias = {}
+        for st in walk_local(self.fn):
+            if isinstance(st, ast.Assign) and len(st.targets) == 1 and isinstance(st.targets[0], ast.Name) and attr_chain(st.value) is not None:
+                alias[st.targets[0].id] = attr_chain(st.value)
+
+        def full(e):
+            ch = attr_chain(e)
+            while ch and ch[0] in alias:
+                ch = tuple(alias[ch[0]]) + tuple(ch[1:])
+            return ch
+        if full(a0) != ("self", "_lex", "filename"):
+            return False
+        if not (isinstance(a1, ast.BinOp) and isinstance(a1.op, ast.Sub)):
+            return False
+        return full(a1.left) == ("self", "_lex", "lex", "lineno") and full(a1.right) == ("self", "_lex", "line_offset")
 
     def _fresh_loc_def(self, n: Node) -> Optional[str]:
         st = n.stmt
